@@ -2,6 +2,7 @@ import Driver.Util
 import DiskfsModel.Model.Repro
 import DiskfsModel.Generated.Detect
 import DiskfsModel.Core.Crc
+import DiskfsModel.Model.MbrTable
 namespace Driver.Repro
 open Diskfs Diskfs.Repro Driver
 
@@ -40,6 +41,20 @@ def imageCase (args : List String) : String :=
   | none => "refused"
   | some ws => "ws=" ++ ",".intercalate (ws.map fun w => s!"{w.off}:{w.data.length}:{crc32 w.data}")
 
+/-- repro.mbrrw sec=<the 512 bytes of sector 0, hex> lbs= pbs=  →  mbr.Read, then Table.Write of what was read:
+    `res=ok ws=off:hex same=0|1` (same: every byte written equals the byte already there) | `res=noread` | `res=refused` -/
+def mbrRewriteCase (args : List String) : String :=
+  let sec := ((argHex args "sec").getD []).toArray
+  let d : Dev := fun i => sec.getD i 0
+  match (Mbr.readT d (argNatD args "size") ((argInt args "lbs").getD 512) ((argInt args "pbs").getD 512)).1 with
+  | .ok t =>
+    match Mbr.writeT t with
+    | some ws =>
+      let same := ws.all fun w => readAt d w.off w.data.length == w.data
+      s!"res=ok\tlss={t.lss}\tpss={t.pss}\tws={wrsStr ws}\tsame={if same then 1 else 0}"
+    | none => "res=refused"
+  | _ => "res=noread"
+
 end Driver.Repro
 
 def main : IO Unit := Driver.runLoop fun op args =>
@@ -47,4 +62,5 @@ def main : IO Unit := Driver.runLoop fun op args =>
   | "repro.pack" => Driver.Repro.packCase args
   | "repro.create" => Driver.Repro.createCase args
   | "repro.image" => Driver.Repro.imageCase args
+  | "repro.mbrrw" => Driver.Repro.mbrRewriteCase args
   | _ => "unknown-op"
